@@ -193,7 +193,9 @@ namespace GeographicLib {
                                       real& BX, real& BY, real& BZ,
                                       real& BXt, real& BYt, real& BZt) const {
     t -= _t0;
-    int n = max(min(int(floor(t / _dt0)), _nNmodels - 1), 0);
+    // Clamp in floating point, t may be huge or a NaN (which gives n = 0)
+    real tn = floor(t / _dt0);
+    int n = !(tn > 0) ? 0 : (tn < _nNmodels - 1 ? int(tn) : _nNmodels - 1);
     bool interpolate = n + 1 < _nNmodels;
     t -= n * _dt0;
     // Components in geocentric basis
@@ -216,6 +218,8 @@ namespace GeographicLib {
     BXt = BXt * - _a;
     BYt = BYt * - _a;
     BZt = BZt * - _a;
+    // With several models the rates depend on t (via n); so pass on a NaN
+    if (_nNmodels > 1 && t != t) BXt = BYt = BZt = t;
 
     BX *= - _a;
     BY *= - _a;
@@ -239,20 +243,24 @@ namespace GeographicLib {
 
   MagneticCircle MagneticModel::Circle(real t, real lat, real h) const {
     real t1 = t - _t0;
-    int n = max(min(int(floor(t1 / _dt0)), _nNmodels - 1), 0);
+    // Clamp in floating point, t1 may be huge or a NaN (which gives n = 0)
+    real tn = floor(t1 / _dt0);
+    int n = !(tn > 0) ? 0 : (tn < _nNmodels - 1 ? int(tn) : _nNmodels - 1);
     bool interpolate = n + 1 < _nNmodels;
     t1 -= n * _dt0;
+    // With several models the rates depend on t (via n); so pass on a NaN
+    real dt0 = _nNmodels > 1 && t1 != t1 ? t1 : _dt0;
     real X, Y, Z, M[Geocentric::dim2_];
     _earth.IntForward(lat, 0, h, X, Y, Z, M);
     // Y = 0, cphi = M[7], sphi = M[8];
 
     return (_nNconstants == 0 ?
             MagneticCircle(_a, _earth._f, lat, h, t,
-                           M[7], M[8], t1, _dt0, interpolate,
+                           M[7], M[8], t1, dt0, interpolate,
                            _harm[n].Circle(X, Z, true),
                            _harm[n + 1].Circle(X, Z, true)) :
             MagneticCircle(_a, _earth._f, lat, h, t,
-                           M[7], M[8], t1, _dt0, interpolate,
+                           M[7], M[8], t1, dt0, interpolate,
                            _harm[n].Circle(X, Z, true),
                            _harm[n + 1].Circle(X, Z, true),
                            _harm[_nNmodels + 1].Circle(X, Z, true)));
